@@ -51,6 +51,15 @@ const (
 )
 
 func c02Grammar(res *explore.Result, g *gram.Grammar, inputs [][]byte, keepGoing bool, burn int) {
+	c02Build(res, g, inputs, keepGoing, burn)
+	if n := len(inputs); n > 3 && len(inputs[n-1]) > len(inputs[0]) {
+		// a second, fresh build of the grammar whose FIRST parse is the longest input, followed by the shortest ones:
+		// what a parser object learns on its first call must not set the bound for later, shorter inputs
+		c02Build(res, g, [][]byte{inputs[n-1], inputs[0], inputs[1]}, keepGoing, burn)
+	}
+}
+
+func c02Build(res *explore.Result, g *gram.Grammar, inputs [][]byte, keepGoing bool, burn int) {
 	an := gram.Analyze(g)
 	if !an.RepsConsume {
 		res.Add("grammars_rejected_nullable_repetition", 1)
@@ -70,6 +79,11 @@ func c02Grammar(res *explore.Result, g *gram.Grammar, inputs [][]byte, keepGoing
 	violated := false
 	explosiveFrom := -1  // inputs are ordered by length: once the work meter trips at length l, longer inputs only get worse
 	var history []string // inputs parsed before with this grammar object
+	// inputs come shortest first; the shortest ones are parsed once more AFTER the longest: whatever a parser object
+	// remembers from a long input must not widen the bound on a short one
+	if n := len(inputs); n > 3 && len(inputs[n-1]) > len(inputs[0]) {
+		inputs = append(append([][]byte{}, inputs...), inputs[0], inputs[1], inputs[2])
+	}
 	for wi, w := range inputs {
 		if wi > 0 && !(explosiveFrom >= 0 && len(inputs[wi-1]) >= explosiveFrom) {
 			history = append(history, string(inputs[wi-1]))
